@@ -166,7 +166,7 @@ func (rg *rig) readCase(cs caseSpec, id string, rng *rand.Rand) {
 	}
 	rg.be.setPlan(o, p)
 	rg.noteCase(cs.label())
-	open0 := rg.openNow(0)
+	open0 := rg.openNow(rg.lastOpen)
 	defer rg.attributeOpen(open0, cs, p, det)
 
 	n0 := rg.be.reqCount(o.hash)
@@ -262,14 +262,18 @@ func (rg *rig) openNow(floor int) int {
 	default:
 		return -1
 	}
-	deadline := time.Now().Add(3 * time.Second)
+	deadline := time.Now().Add(10 * time.Second)
+	sleep := 200 * time.Microsecond
 	for {
 		rg.be.closeIdle()
 		n := rg.be.openConns()
 		if n <= floor || time.Now().After(deadline) {
 			return n
 		}
-		time.Sleep(time.Millisecond)
+		time.Sleep(sleep)
+		if sleep < 50*time.Millisecond {
+			sleep *= 2
+		}
 	}
 }
 
@@ -282,6 +286,7 @@ func (rg *rig) attributeOpen(open0 int, cs caseSpec, p *plan, det *readDetail) {
 		return
 	}
 	open1 := rg.openNow(open0)
+	rg.lastOpen = open1
 	if open1 <= open0 {
 		return
 	}
